@@ -388,6 +388,18 @@ impl<'a> Ren<'a> {
                         Link::Method(m, args) => {
                             s.push('.');
                             s.push_str(m);
+                            if let (true, [E::Map(es)]) = (last && cx.free && cx.brk && !cx.braces && break_from == usize::MAX, args.as_slice()) {
+                                if self.may_break(id) && self.flip(self.o.inline_block, 1, 2) {
+                                    // the map argument as a map block on continuation lines
+                                    self.use_("block:map-arg-of-chain-call");
+                                    for (k, x) in es {
+                                        s.push_str(&self.nl_by(id, cx, M_COMPLETE));
+                                        let v = self.expr(x, Cx { brk: false, free: false, ..cx }, 3);
+                                        s.push_str(&format!("{}: {}", k, v));
+                                    }
+                                    continue;
+                                }
+                            }
                             // paren-free arguments: on the last link in a rightmost position, or on
                             // a continuation line when the next link starts its own line
                             let next_on_own_line = !last && i + 1 >= break_from && !matches!(links[i + 1], Link::Index(_));
